@@ -15,6 +15,9 @@ def dispatch(prop: str):
     if prop in ("C04", "C05", "C08", "C09"):
         from .engines import edit_checks
         return lambda tier, seed: edit_checks.check(prop, tier, seed)
+    if prop == "C12":
+        from .engines import nixtext
+        return nixtext.check
     raise SystemExit(f"no check registered for {prop}")
 
 
